@@ -29,6 +29,8 @@ pinned configuration regenerated from heapq.go (`current_cfg_ok`) and the repair
   never touches a present key (no replacing `Put`, no `Get`/`Remove` that hits; `Has`, `Len`, `Size`,
   `Clear` unrestricted) — in particular on the *syntactic* class `freshKeys []`: the heap is then only
   changed by `Add` of the newest timestamp and `pop(0)`, both of which keep heap order.
+* `C08_lru_small_cache` – the hypothesis discharged for the pinned configuration on **every** history of a
+  cache that never holds more than 4 entries (sizes `≥ 1`, `limit ≤ 4`): F2 needs a heap of 5.
 * `C08_full_repaired` – for the repaired heap configuration (`CfgRepaired`: `parent i = (i-1)/2`, guarded
   sift-up in `pop`) the cache refines the reference LRU cache on **every** history: F2 (with F1) is the
   only obstacle.
@@ -370,6 +372,34 @@ theorem C08_lru_no_interior_removal_current (sizeOf : Nat → Int) (hs : ∀ v, 
       (exec Drv.C05.cfg sizeOf (empty limit) ops).evicted = (execRef sizeOf { limit := limit } ops).evicted) :=
   C08_lru_no_interior_removal Drv.C05.cfg Props.C05.current_std current_cfg_ok.1 sizeOf hs limit hl ops hfresh
 
+/-- **C08, LRU order for the pinned heap on every history of a small cache.**  If every value has size
+`≥ 1` and `limit ≤ 4` (so that at most 4 entries are ever live: `length_le_limit`), then for every
+configuration with the standard child layout, any `parent i < i` and `pop` without sift-up — the pinned one
+in particular — the cache model refines the reference LRU cache on **every** history (replacing `Put`s,
+`Get`s, `Remove`s included): a heap of at most 4 elements stays in heap order under `pop` at every offset
+(`heapInvB_std`); the smallest heap on which F2 shows is one of 5 elements (removal at offset 3). -/
+theorem C08_lru_small_cache (cfg : Heapq.Cfg) (hstd : Proofs.Heapq.CfgStd cfg) (ok : CfgOK cfg)
+    (sizeOf : Nat → Int) (h1 : ∀ v, 1 ≤ sizeOf v) (limit : Int) (hl : 0 < limit) (hl4 : limit ≤ 4)
+    (ops : List Op) :
+    outs cfg sizeOf (empty limit) ops = outsRef sizeOf { limit := limit } ops ∧
+    Abs (exec cfg sizeOf (empty limit) ops) (execRef sizeOf { limit := limit } ops) ∧
+    (exec cfg sizeOf (empty limit) ops).evicted.Perm (execRef sizeOf { limit := limit } ops).evicted ∧
+    (Op.clear ∉ ops →
+      (exec cfg sizeOf (empty limit) ops).evicted = (execRef sizeOf { limit := limit } ops).evicted) := by
+  have hs : ∀ v, 0 ≤ sizeOf v := fun v => by have := h1 v; omega
+  exact C08_refines_if_evict_min cfg ok sizeOf hs limit hl ops
+    (runMin_of_heapInvB ok (Proofs.CacheHeap.heapInvB_std hstd (Proofs.CacheHeap.cfgOK_heapq ok)) h1 ops
+      (inv_empty sizeOf limit hl) Proofs.CacheHeap.heapOrd_nil (by show limit ≤ ((4 : Nat) : Int); omega))
+
+/-- … instantiated at the configuration the driver runs -/
+theorem C08_lru_small_cache_current (sizeOf : Nat → Int) (h1 : ∀ v, 1 ≤ sizeOf v) (limit : Int)
+    (hl : 0 < limit) (hl4 : limit ≤ 4) (ops : List Op) :
+    outs Drv.C05.cfg sizeOf (empty limit) ops = outsRef sizeOf { limit := limit } ops ∧
+    (Op.clear ∉ ops →
+      (exec Drv.C05.cfg sizeOf (empty limit) ops).evicted = (execRef sizeOf { limit := limit } ops).evicted) :=
+  let r := C08_lru_small_cache Drv.C05.cfg Props.C05.current_std current_cfg_ok.1 sizeOf h1 limit hl hl4 ops
+  ⟨r.1, r.2.2.2⟩
+
 /-- **C08, full theorem for the repaired heap.**  For every repaired configuration (`CfgRepaired`: standard
 child layout, `parent i = (i-1)/2`, `pop` sifts up under the guard `i < n` — e.g. `Props.C05.repaired`, for
 which C05 proves `C05_full`) the cache model refines the reference LRU cache on **every** history: same
@@ -456,6 +486,19 @@ set_option maxRecDepth 100000 in
 example : freshKeys [] freshOps = true ∧
     (exec pinned demoSize (empty 8) freshOps).evicted = [(7, 5), (6, 4), (5, 23), (4, 14), (3, 2), (2, 1), (1, 3)] ∧
     freshKeys [] f2ops = false ∧ freshKeys [] demoOps = false := by
+  decide
+
+/-- a history with replacing `Put`s, hitting `Get`s and `Remove`s on a cache of limit 4 (unit sizes):
+`C08_lru_small_cache` applies; the callback sequence is the reference's -/
+def smallOps : List Op :=
+  [.put 1 1, .put 2 2, .put 3 3, .put 4 4, .get 2, .put 5 5, .remove 3, .put 1 6, .get 4, .put 6 7, .put 7 8,
+   .put 2 9, .remove 5, .put 8 10, .put 9 11]
+
+set_option maxRecDepth 100000 in
+example : (exec pinned (fun _ => 1) (empty 4) smallOps).evicted =
+      [(6, 7), (4, 4), (1, 6), (5, 5), (2, 2), (3, 3), (1, 1)] ∧
+    (exec pinned (fun _ => 1) (empty 4) smallOps).evicted = (execRef (fun _ => 1) { limit := 4 } smallOps).evicted ∧
+    freshKeys [] smallOps = false := by
   decide
 
 set_option maxRecDepth 100000 in
